@@ -24,6 +24,10 @@ func coreC15(tier string) []RunSpec {
 	for k := 0; k < 12; k++ {
 		out = append(out, RunSpec{Profile: "core:melt-poll-race", Params: map[string]int{"conc": 0, "mpr": 1, "k": k}})
 	}
+	// one request with very many outputs, everything restored afterwards (before / after a restart)
+	for k := 0; k < 4; k++ {
+		out = append(out, RunSpec{Profile: "core:large-request-restore", Params: map[string]int{"conc": 0, "large": 1, "k": k}})
+	}
 	// one state check over the proofs of two melts in flight, after one or both payments ended
 	for k := 0; k < 10; k++ {
 		out = append(out, RunSpec{Profile: "core:checkstate-two-pending", Params: map[string]int{"conc": 0, "c2p": 1, "k": k}})
@@ -62,6 +66,10 @@ func runC15(rc *RunCtx) {
 			m.StepCheckstate()
 		}
 		rc.S.Probe("c15_late_resolution")
+	}
+	if rc.P("large", 0) == 1 {
+		m.step = -40
+		m.StepLargeRequest([]int{170, 260, 340, 520}[rc.P("k", 0)%4], rc.P("k", 0)%2 == 1)
 	}
 	if rc.P("c2p", 0) == 1 {
 		for i := 0; i < 3; i++ {
